@@ -490,7 +490,54 @@ def k_exe(run, case):
         shutil.rmtree(work, ignore_errors=True)
 
 
-KINDS = {"cell": k_cell, "exe": k_exe}
+def k_refused_input(run, case):
+    """
+    A writer / command asked for an output it cannot produce from its input (a TUM export of poses
+    without timestamps: evo_traj kitti ... --save_as_tum, write_tum_trajectory_file(path)), while a
+    file of that name exists: whether evo refuses the input or learns to handle it, the existing
+    file is replaced only after a question answered with exactly 'y'.
+    """
+    from evo.tools import file_interface as fi
+    via, answer = case["via"], case["answer"]
+    work = os.path.join(os.environ.get("VMON_WORK", "."), "c17r_%d" % case["rs"][-1])
+    os.makedirs(os.path.join(work, "out"), exist_ok=True)
+    try:
+        rng = run.rng(case)
+        arr = gen.traj_arrays(rng, 9, stamp_cls="small")
+        path_obj = gen.make_evo(arr, "se3" if rng.random() < .5 else "xyzq", stamped=False)
+        out = os.path.join(work, "out")
+        target = os.path.join(out, "poses.tum")
+        old = b"OLD CONTENT of poses.tum\n" * 3
+        open(target, "wb").write(old)
+        res = cli.CliResult()
+        if via == "api":
+            cwd = os.getcwd()
+            os.chdir(out)
+            try:
+                with cli.scripted_input([answer] * 5, res.prompts), core.quiet():
+                    try:
+                        fi.write_tum_trajectory_file(target if rng.random() < .5 else Path(target), path_obj, confirm_overwrite=True)
+                    except BaseException as e:  # noqa
+                        res.exc = e
+            finally:
+                os.chdir(cwd)
+        else:
+            src = os.path.join(work, "poses.txt")
+            fi.write_kitti_poses_file(src, path_obj)
+            res = cli.run_cli("traj", ["kitti", src, "--save_as_tum"], cwd=out, answers=[answer] * 5)
+        now = open(target, "rb").read() if os.path.exists(target) else None
+        run.seen(case, core.digest(via, answer), cls=["output the input cannot provide: %s, answer %r" % (via, answer)],
+                 sample={"via": via, "answer": answer, "prompts": len(res.prompts), "refused": res.exc is not None or res.exit not in (0, None)})
+        confirmed = answer == "y" and len(res.prompts) >= 1
+        run.check(now == old or confirmed, "an existing file is only replaced after a question answered with 'y' (unusable input)", case,
+                  "%s: the existing poses.tum was %s although %d question(s) were asked and the answer was %r" %
+                  (via, "removed" if now is None else "replaced", len(res.prompts), answer), key="refused-input:overwritten:" + via)
+    finally:
+        shutil.rmtree(work, ignore_errors=True)
+        clean_home()
+
+
+KINDS = {"cell": k_cell, "exe": k_exe, "refused_input": k_refused_input}
 
 
 def install_prompt_bridge():
@@ -542,6 +589,9 @@ def main(run):
            for a in (("n", "y") if run.tier == "quick" else ANSWERS)]
     for i in run.mine(len(exe)):
         k_exe(run, run.case("exe", i, **exe[i]))
+    refused = [{"via": v, "answer": a} for v in ("api", "cli") for a in ("n", "y", "", "<EOF>")]
+    for i in run.mine(len(refused)):
+        k_refused_input(run, run.case("refused_input", i, **refused[i]))
     run.extra["matrix_cells"] = len(cells)
     run.extra["scenarios"] = [s.name for s in S]
     if run.tier == "thorough":
